@@ -417,6 +417,10 @@ def _pop_line_before_zid(words: list[str]) -> str:
         and words[0][1].isdigit()
     ):
         priority = f"{words.pop(0)} "
+    # The indexed body starts right after the prefix, so extra spaces between
+    # the prefix and the first word are not kept.
+    while words and words[0] == "":
+        words.pop(0)
     return f"{spaces}{symbol} {priority}"
 
 
